@@ -146,6 +146,8 @@ pub enum Action {
     Fault(FaultKind),
     WriteReady,
     DropAll,
+    /// make the scenario's raw byte string readable (hostile-input lanes)
+    Inject,
 }
 
 #[derive(Clone, Debug, Serialize, Deserialize, PartialEq, Eq, Default)]
@@ -180,6 +182,9 @@ pub struct Scenario {
     pub oracles: Oracles,
     /// the server closes its side when it has seen an UnbindRequest or a client half-close
     pub server_closes_on_unbind: bool,
+    /// raw bytes the server can send once (hostile-input lanes)
+    #[serde(default)]
+    pub raw_inject: Option<Vec<u8>>,
 }
 
 impl Scenario {
@@ -201,6 +206,7 @@ impl Scenario {
             select_starts: vec![0, 1, 3],
             oracles: Oracles::default(),
             server_closes_on_unbind: true,
+            raw_inject: None,
         }
     }
 }
